@@ -6,6 +6,70 @@ From Verif Require Import Lib.Sexp Model.C03_ops Gen.C03_tables Model.C03_expr M
 Import ListNotations.
 Open Scope string_scope. Open Scope list_scope. Open Scope nat_scope.
 
+(* the operand requirements are constants regenerated from expressions.py: bring them to the grammar's names.  Each [change]
+   is checked by conversion: if the source requires another level somewhere, it fails and so does every proof that uses it *)
+Ltac rqnorm :=
+  change rq_Attribute_values with P_ATOM in *;
+  change rq_BinOp_pow_left with P_AWAIT in *;
+  change rq_BinOp_pow_right with P_FACTOR in *;
+  change rq_BoolOp_values_above_own with 1 in *;
+  change rq_Call_function with P_ATOM in *;
+  change rq_Call_sole_genexp with P_NONE in *;
+  change rq_Call_arguments with P_TEST in *;
+  change rq_Compare_left with P_BOR in *;
+  change rq_Compare_comparators with P_BOR in *;
+  change rq_Comprehension_target with P_BOR in *;
+  change rq_Comprehension_iterable with P_OR in *;
+  change rq_Comprehension_conditions with P_OR in *;
+  change rq_Dict_unpacked with P_BOR in *;
+  change rq_Dict_key with P_TEST in *;
+  change rq_Dict_value with P_TEST in *;
+  change rq_DictComp_key with P_TEST in *;
+  change rq_DictComp_value with P_TEST in *;
+  change rq_DictComp_generators with P_NONE in *;
+  change rq_Formatted_value with P_OR in *;
+  change rq_Formatted_spec_values with P_NONE in *;
+  change rq_Formatted_spec with P_NONE in *;
+  change rq_GeneratorExp_element with P_TEST in *;
+  change rq_GeneratorExp_generators with P_NONE in *;
+  change rq_IfExp_body with P_OR in *;
+  change rq_IfExp_test with P_OR in *;
+  change rq_IfExp_orelse with P_TEST in *;
+  change rq_JoinedStr_values with P_NONE in *;
+  change rq_Keyword_value with P_TEST in *;
+  change rq_VarPositional_value with P_BOR in *;
+  change rq_VarKeyword_value with P_TEST in *;
+  change rq_Lambda_default with P_TEST in *;
+  change rq_Lambda_body with P_TEST in *;
+  change rq_List_elements with P_TEST in *;
+  change rq_ListComp_element with P_TEST in *;
+  change rq_ListComp_generators with P_NONE in *;
+  change rq_NamedExpr_target with P_ATOM in *;
+  change rq_NamedExpr_value with P_TEST in *;
+  change rq_Set_elements with P_TEST in *;
+  change rq_SetComp_element with P_TEST in *;
+  change rq_SetComp_generators with P_NONE in *;
+  change rq_Slice_lower with P_TEST in *;
+  change rq_Slice_upper with P_TEST in *;
+  change rq_Slice_step with P_TEST in *;
+  change rq_Subscript_left with P_ATOM in *;
+  change rq_Subscript_slice with P_TEST in *;
+  change rq_Tuple_elements with P_TEST in *;
+  change rq_UnaryOp_value_above_own with 0 in *;
+  change rq_Yield_value with P_TEST in *;
+  change rq_YieldFrom_value with P_TEST in *;
+  change pr_default with P_ATOM in *;
+  change pr_binop_default with P_ATOM in *;
+  change pr_BoolOp_if with P_OR in *;
+  change pr_BoolOp_else with P_AND in *;
+  change pr_UnaryOp_if with P_NOT in *;
+  change pr_UnaryOp_else with P_FACTOR in *;
+  change pr_Compare with P_CMP in *;
+  change pr_IfExp with P_TEST in *;
+  change pr_Lambda with P_TEST in *;
+  change pr_Yield with P_YIELD in *;
+  change pr_YieldFrom with P_YIELD in *.
+
 Section Iter.
 Variable fx : fixes.
 
